@@ -6,8 +6,8 @@
 From Coq Require Import NArith ZArith List.
 From Coq Require Extraction ExtrOcamlBasic.
 From ZV.Codec Require Import Bytes XXH64 Fse Huf Block Frame.
-From ZV.Safety Require Import DDictHashSet NoProgress Witnesses LitBuffer RingBuffer Continuity CtxPointers DictOwner.
+From ZV.Safety Require Import DDictHashSet NoProgress Witnesses LitBuffer RingBuffer Continuity CtxPointers DictOwner LegacyWalk SkipSize.
 Extraction Language OCaml.
 Extraction "Extract/out/c03model.ml" witness_table R default_config nostrict_config
   add_all add_ddict get create xxh_hash next_fixed next_prefix np_step np_step_nocheck MAXNP place buf_size ring_trace ring0
-  c_init step step_fixed trace prun d_init dtrace.
+  c_init step step_fixed trace prun d_init dtrace walk skip_size read_skip.
